@@ -60,3 +60,9 @@ claim("C03",
   "Decides structural necessary conditions of C03 for every history and switch combination: a pod cannot be admitted unless used+masked request <= the snapshot's limit (and nonPreemptibleUsed+request <= min for non-preemptible pods), the limit is runtime exactly when runtime quota is on, parent checking walks every ancestor with the same selector and stops only at the root, reserve/unreserve always reach the accounting and do check+update under the write lock, and a pod's used / non-preemptible-used change is applied unless both deltas are zero. It does not decide the closed-loop invariant used <= max nor completeness of rejections.",
   "trusts go/ssa and the rule tables in internal/rules/c03.go; relies on C01 for the accounting itself",
   "DESIGN.md §4 C03")
+
+claim("C05",
+  "custom SSA rules: mirror rule on the reservation ledger functions (effect summaries), write-set rule on Allocated, coupled-delete must-follow rule and guarded-admission rule on the node indexes with sibling comparison of the refresh blocks, conditional-constant exploration of the restricted fit and match predicates, must-reach rule for the pod update handler, must-lockset on the cache maps",
+  "Decides structural necessary conditions of C05 for every history and fit input: add/remove of an assigned pod are exact duals on the same masked amount and recompute the derived figures; nobody else assigns Allocated; deleting a reservation removes it from all node indexes; the matchable/allocated indexes only admit matchable (and allocated) reservations, identically in the three refresh paths; a restricted reservation fits only through fitsReservation, which compares every reserved requested dimension and clamps after the preemptible credit; allocate-once and owner gates cannot be bypassed; every update of an assigned pod is replayed into the ledger; the cache maps are accessed under the cache lock. It does not decide the quantity comparison or sums over histories.",
+  "trusts go/ssa and the rule tables in internal/rules/c05.go",
+  "DESIGN.md §4 C05")
